@@ -223,7 +223,18 @@ def MConv.call (dflt : Rounding) (c : MConv) (amount : Rat) (u t : Nat) (y m d :
 
 /-! ### the converter stack of `Money` -/
 
-/-- `Money.register_converter` / `remove_converter` / `with` on a stack of
+/-- `Money.register_converter` / `__enter__`: on top of the stack (top = last) -/
+def stackPush (stack : List Nat) (c : Nat) : List Nat := stack ++ [c]
+
+/-- `QuantityMeta.register_converter` (generic types): no effect when the
+converter is registered already, else appended (most recent = last) -/
+def registerGeneric (l : List Nat) (c : Nat) : List Nat := if l.contains c then l else l ++ [c]
+
+/-- `QuantityMeta.remove_converter`: `list.remove`; `none` = ValueError -/
+def removeGeneric (l : List Nat) (c : Nat) : Option (List Nat) :=
+  if l.contains c then some (l.erase c) else none
+
+/-- `Money.remove_converter` / leaving a `with` block on a stack of
 converter ids (top = last) -/
 def stackRemove (stack : List Nat) (c : Nat) : List Nat × Except Err Unit :=
   match stack.reverse with
